@@ -95,7 +95,7 @@ func runNativeRow(rc *RuleCtx) {
 func init() {
 	register(&Rule{
 		Name:     "INTSWITCHCOVER",
-		Doc:      "a type switch that converts Go integers has an arm for every width of a family it handles: with arms for three of int8/int16/int32/int64 it has the fourth, and likewise for uint8/uint16/uint32/uint64: the readers hand out int8 for a thrift byte (byteAsUint8=false), int16, int32 … according to the wire type, so a converter without the int8 arm (primitive.ToInt64) fails with `unsupported type` for exactly the values ReadAny produces",
+		Doc:      "a type switch that converts Go integers has an arm for every width of a family it handles: with arms for three of int8/int16/int32/int64 it has the fourth, and likewise for uint8/uint16/uint32/uint64; a switch that handles both sized families and one of int / uint handles the other, too: the readers hand out int8 for a thrift byte (byteAsUint8=false), int16, int32 … according to the wire type, so a converter without the int8 arm (primitive.ToInt64) fails with `unsupported type` for exactly the values ReadAny produces",
 		Configs:  "NP",
 		Floor:    map[string]int{"N": 6, "P": 6},
 		Controls: 1,
@@ -155,6 +155,28 @@ func runIntSwitchCover(rc *RuleCtx) {
 					}
 					if !examined {
 						return true
+					}
+					// the unsized types go in pairs: a converter that takes uint takes int, and vice versa
+					if have[types.Int] != have[types.Uint] && (have[types.Int] || have[types.Uint]) {
+						both := true
+						for _, fam := range fams {
+							n := 0
+							for _, k := range fam {
+								if have[k] {
+									n++
+								}
+							}
+							if n < 3 {
+								both = false
+							}
+						}
+						if both {
+							if !have[types.Int] {
+								missing = append(missing, "int")
+							} else {
+								missing = append(missing, "uint")
+							}
+						}
 					}
 					rc.Examined++
 					good := len(missing) == 0
